@@ -73,7 +73,8 @@ class Case:
             d["c"] = inp.declare("c", (2 * norb, nu + nd), cplx if (kind == "ghf" and opts.get("ghf_complex", True)) else False)    # ghf_cpmc: constrained-path trials are real
         elif kind == "noci":
             d["ci"] = inp.declare("ci", (ndets,))
-            ncx = cplx if opts.get("noci_complex", True) else False      # complex NOCI determinants are admissible parameters (coefficients kept real)
+            # the class documents "both ci_coeffs and dets are assumed to be real": real symbols (complex determinants are outside the admissible set)
+            ncx = cplx if opts.get("noci_complex", False) else False
             d["du"] = inp.declare("du", (ndets, norb, nu), ncx)
             d["dd"] = inp.declare("dd", (ndets, norb, nd), ncx)
         elif kind in ("cisd", "cisd_faster", "CISD"):
@@ -987,9 +988,15 @@ def ov_mob(kind, norb, nu, nd):
     eye = c.wave["mo_coeff"][0]
     wave_I["mo_coeff"] = [eye, eye]
     wd2 = H.both(lambda m, w: m.T.dot(w), c.moB, c.wd)
-    b, _, _ = run_real(c, "_calc_overlap", [c.wu, wd2, wave_I])
+    b, nat_b, _ = run_real(c, "_calc_overlap", [c.wu, wd2, wave_I])
     name = f"C01.ov.mob.{tag(kind, norb, nel)}"
-    return finish([H.identity(name, a, b, functions=fq(c, "_calc_overlap"), inputs=c.inp, t0=t0)], [H.crosscheck(name, c.inp, a, nat)])
+    o = H.identity(name, a, b, functions=fq(c, "_calc_overlap"), inputs=c.inp, t0=t0)
+    if o["status"] == REFUTED:
+        # native replay: the two real evaluations at the numeric point of the symbols
+        d = abs(complex(np.asarray(nat).reshape(-1)[0]) - complex(np.asarray(nat_b).reshape(-1)[0]))
+        o["replayed"] = bool(d > 1e-9 * (1 + abs(complex(np.asarray(nat_b).reshape(-1)[0]))))
+        o["witness"] = dict(o.get("witness") or {}, native=dict(overlap_with_moB=str(np.asarray(nat).reshape(-1)[0]), overlap_of_rotated_walker_with_identity=str(np.asarray(nat_b).reshape(-1)[0])))
+    return finish([o], [H.crosscheck(name, c.inp, a, nat)])
 
 
 def obs_ru(kind, norb, nocc, what="fb", **kw):
